@@ -1273,7 +1273,14 @@ LIB['numpy.log10'] = _ew1(lambda x: UF_LOG10(x), 'real')
 
 
 def _log(x):
-    return UF_LOG(x)
+    r = UF_LOG(x)
+    if is_conc(x) and _q(x) > 0:
+        # numeric enclosure of log at a concrete argument (axiom about the real function)
+        import math
+        v = math.log(float(_q(x)))
+        lo, hi = Fraction(v) - Fraction(1, 10 ** 12), Fraction(v) + Fraction(1, 10 ** 12)
+        CTX.side.append(And(r >= lo, r <= hi).t)
+    return r
 
 
 LIB['numpy.log'] = _ew1(_log, 'real')
@@ -1451,6 +1458,20 @@ def np_sort(interp, a):
     if h is not None:
         return h()
     raise Unsupported("np.sort")
+
+
+@_np('ptp')
+def np_ptp(interp, a, **k):
+    """ptp = max - min >= 0; ptp == 0 iff all elements are equal (the 'iff' is used through the flag below:
+    contracts read `ptp_zero_means_constant`)."""
+    a = _as_arr(a)
+    p = CTX.fresh('ptp', 'real')
+    CTX.side.append((p >= 0).t)
+    flat = A.reshape(a, (a.size(),)) if a.ndim != 1 else a
+    snap = flat._snapshot()
+    # instantiate "ptp == 0 -> a[j] == a[0]" lazily at the indices contracts ask about
+    interp.__dict__.setdefault('ptp_terms', []).append((p, snap, flat.shape[0]))
+    return p
 
 
 @_np('iscomplexobj')
